@@ -83,6 +83,27 @@ func (s *NTPServer) SendFrom(src netip.Addr, to netip.AddrPort, b []byte) error 
 	return err
 }
 
+// SendFromOtherPort sends from the server's own address but another port — a datagram that
+// does not come from the queried server (address and port) either.
+func (s *NTPServer) SendFromOtherPort(to netip.AddrPort, b []byte) error {
+	key := netip.IPv6Unspecified() // slot for the other-port socket
+	s.mu.Lock()
+	c := s.others[key]
+	s.mu.Unlock()
+	if c == nil {
+		var err error
+		c, err = net.ListenUDP("udp", net.UDPAddrFromAddrPort(netip.AddrPortFrom(s.Addr.Addr(), 0)))
+		if err != nil {
+			return err
+		}
+		s.mu.Lock()
+		s.others[key] = c
+		s.mu.Unlock()
+	}
+	_, err := c.WriteToUDPAddrPort(b, to)
+	return err
+}
+
 func (s *NTPServer) Close() {
 	s.Conn.Close()
 	s.mu.Lock()
